@@ -158,6 +158,21 @@ class _SSHAuthorizedKeyEntry(OptionsParser):
         'subject':     _add_subject
     }
 
+    # Option keywords are case-insensitive in OpenSSH
+    _keywords = {keyword.lower(): keyword for keyword in (
+        'cert-authority', 'command', 'environment', 'from',
+        'no-agent-forwarding', 'no-port-forwarding', 'no-pty',
+        'no-touch-required', 'no-user-rc', 'no-X11-forwarding',
+        'permitopen', 'principals', 'subject')}
+
+    def _add_option(self, option: str) -> None:
+        """Add an option value"""
+
+        name, sep, value = option.partition('=')
+        name = self._keywords.get(name.lower(), name)
+
+        super()._add_option(name + sep + value)
+
     def match_options(self, client_host: str, client_addr: str,
                       cert_principals: Optional[Sequence[str]],
                       cert_subject: Optional['X509Name'] = None) -> bool:
